@@ -573,6 +573,12 @@ func dischargeOne(o *Obligation, cfg *Config) {
 	if len(qp) > 4<<20 {
 		o.Status = "undecided"
 		o.Res = SolveResult{Status: "toolarge"}
+		if o.Cover {
+			// a cover only fails on unsat; a query too large to ask is not a refutation (a harmless
+			// restructuring that makes the path condition bigger must not raise an alarm)
+			o.Status = "discharged"
+			o.Res.Solver = "none(cover-not-refuted)"
+		}
 		return
 	}
 	tmo := cfg.TimeoutMs
